@@ -299,3 +299,80 @@ _T_via_c02("C14", "twin-views-filled-in-one-pass-published-last", "beacon.py", "
     ("beacon.py", _V_SET, "        if self._settings is None:\n            self._cache_views(True)\n        return self._settings\n"),
     ("beacon.py", _V_SETI, "        if self._settings_by_index is None:\n            self._cache_views(True)\n        return self._settings_by_index\n"),
 ])
+
+# ================================================================================================ R8: cache hits are determined
+# (seeded C14g keeps the mappings of settings_map() in one table keyed on (index_type, pretty), stores only parsed mappings
+# and looks the table up whatever `parse` is; the mutants below are other memos whose hit is not determined by every input
+# of the cached value, the twins are memos that are)
+_INIT_RAW = "        self._raw_settings: Optional[Mapping[str, Any]] = None\n"
+_INIT_MAPS = ("beacon.py", _INIT_RAW, _INIT_RAW + "        self._maps = {}\n")
+_MEMO_STORE = "            settings[key] = val\n        view = MappingProxyType(settings)\n"
+T("C14", "twin-map-memo-complete-key", "beacon.py", "", "", edits=[
+    _INIT_MAPS,
+    ("beacon.py", _MAP_NEW, "        try:\n            return self._maps[index_type, pretty, parse]\n        except KeyError:\n            pass\n" + _MAP_NEW),
+    ("beacon.py", _MAP_RET, _MEMO_STORE + "        self._maps[index_type, pretty, parse] = view\n        return view\n"),
+])
+T("C14", "twin-map-memo-parsed-only-on-both-sides", "beacon.py", "", "", edits=[
+    _INIT_MAPS,
+    ("beacon.py", _MAP_NEW, "        parse = parse or pretty\n        memo_key = (index_type, pretty)\n"
+                            "        if parse and memo_key in self._maps:\n            return self._maps[memo_key]\n" + _MAP_NEW),
+    ("beacon.py", _MAP_RET, _MEMO_STORE + "        if parse:\n            self._maps[memo_key] = view\n        return view\n"),
+])
+T("C14", "twin-map-memo-get-or-compute-local", "beacon.py", "", "", edits=[
+    _INIT_MAPS,
+    ("beacon.py", _MAP_NEW, "        memo_key = (index_type, bool(pretty), bool(parse or pretty))\n        view = self._maps.get(memo_key)\n"
+                            "        if view is not None:\n            return view\n" + _MAP_NEW),
+    ("beacon.py", _MAP_RET, _MEMO_STORE + "        table = self._maps\n        table[memo_key] = view\n        return view\n"),
+])
+_T_via_c02("C14", "twin-raw-views-share-keyed-table", "beacon.py", "", "", edits=[
+    _INIT_MAPS,
+    ("beacon.py", _MAP_HEAD, "    def _memo_view(self, index_type, pretty):\n        if index_type not in self._maps:\n"
+                             "            self._maps[index_type] = self.settings_map(index_type, pretty)\n"
+                             "        return self._maps[index_type]\n\n" + _MAP_HEAD),
+    ("beacon.py", _V_RAW, "        return self._memo_view(\"name\", False)\n"),
+    ("beacon.py", _V_RAWI, "        return self._memo_view(\"const\", False)\n"),
+])
+M("C14", "map-memo-key-without-view-flags", "beacon.py", "", "", "C14.R8", edits=[
+    _INIT_MAPS,
+    ("beacon.py", _MAP_NEW, "        if index_type in self._maps:\n            return self._maps[index_type]\n" + _MAP_NEW),
+    ("beacon.py", _MAP_RET, _MEMO_STORE + "        self._maps[index_type] = view\n        return view\n"),
+])
+M("C14", "map-memo-single-slot", "beacon.py", "", "", "C14.R8", edits=[
+    ("beacon.py", _INIT_RAW, _INIT_RAW + "        self._last_map = None\n"),
+    ("beacon.py", _MAP_NEW, "        if self._last_map is not None:\n            return self._last_map\n" + _MAP_NEW),
+    ("beacon.py", _MAP_RET, _MEMO_STORE + "        self._last_map = view\n        return view\n"),
+])
+M("C14", "map-memo-stored-only-when-not-pretty", "beacon.py", "", "", "C14.R8", edits=[
+    _INIT_MAPS,
+    ("beacon.py", _MAP_NEW, "        memo_key = (index_type, parse)\n        cached = self._maps.get(memo_key)\n"
+                            "        if cached is not None:\n            return cached\n" + _MAP_NEW),
+    ("beacon.py", _MAP_RET, _MEMO_STORE + "        if not pretty:\n            self._maps[memo_key] = view\n        return view\n"),
+])
+M("C14", "map-memo-setdefault-partial-key", "beacon.py", "", "", "C14.R8", edits=[
+    _INIT_MAPS,
+    ("beacon.py", _MAP_NEW, "        if (index_type, pretty) in self._maps:\n            return self._maps[index_type, pretty]\n" + _MAP_NEW),
+    ("beacon.py", _MAP_RET, "            settings[key] = val\n        return self._maps.setdefault((index_type, pretty), MappingProxyType(settings))\n"),
+])
+M("C14", "map-memo-lookup-outside-the-store-condition", "beacon.py", "", "", "C14.R8", edits=[
+    _INIT_MAPS,
+    ("beacon.py", _MAP_NEW, "        if index_type in self._maps:\n            return self._maps[index_type]\n" + _MAP_NEW),
+    ("beacon.py", _MAP_RET, _MEMO_STORE + "        if pretty and parse:\n            self._maps[index_type] = view\n        return view\n"),
+])
+# the same table behind a helper the normaliser leaves in place (**options): `pretty` is not part of the key but the same
+# constant at every call of the helper
+_T_via_c02("C14", "twin-raw-views-share-keyed-table-kwargs-helper", "beacon.py", "", "", edits=[
+    _INIT_MAPS,
+    ("beacon.py", _MAP_HEAD, "    def _memo_view(self, index_type, pretty, **options):\n        if index_type not in self._maps:\n"
+                             "            self._maps[index_type] = self.settings_map(index_type, pretty)\n"
+                             "        return self._maps[index_type]\n\n" + _MAP_HEAD),
+    ("beacon.py", _V_RAW, "        return self._memo_view(\"name\", False, strict=True)\n"),
+    ("beacon.py", _V_RAWI, "        return self._memo_view(\"const\", False, strict=True)\n"),
+])
+M("C14", "views-share-keyed-table-kwargs-helper-flag-differs", "beacon.py", "", "", "C14.R8", edits=[
+    _INIT_MAPS,
+    ("beacon.py", _MAP_HEAD, "    def _memo_view(self, index_type, pretty, **options):\n        if index_type not in self._maps:\n"
+                             "            self._maps[index_type] = self.settings_map(index_type, pretty)\n"
+                             "        return self._maps[index_type]\n\n" + _MAP_HEAD),
+    ("beacon.py", _V_RAW, "        return self._memo_view(\"name\", False, strict=True)\n"),
+    ("beacon.py", _V_SET, "        return self._memo_view(\"name\", True, strict=True)\n"),
+])
